@@ -94,7 +94,13 @@ func init() {
 	reg(hp+"verifTier", func(x *Exec, fr *frame, args []value) value { return x.tb.Int(int64(x.tier)) })
 	reg(hp+"verifBound", func(x *Exec, fr *frame, args []value) value {
 		n, _ := args[0].(strVal).concrete()
-		x.bounds[x.harness+"."+n] = x.concInt(args[1], "bound")
+		v := x.concInt(args[1], "bound")
+		x.bounds[x.harness+"."+n] = v
+		if n == "UNWIND" && int(v) > x.unwind {
+			// scale harnesses walk long concrete structures: the bound stays a non-termination guard,
+			// raised for this path only (the step limit still applies)
+			x.unwind = int(v)
+		}
 		return nil
 	})
 	reg(hp+"verifMapOrder", func(x *Exec, fr *frame, args []value) value {
